@@ -7,6 +7,8 @@ import SpoxModel.Props.C17
 #print axioms C17.logical_matches
 #print axioms C17.int_shape
 #print axioms C17.arith_matches
+#print axioms C17.int_closed
+#print axioms C17.expr_matches
 #print axioms C17.neg_matches
 #print axioms C17.neg_unsigned_counterexample
 #print axioms C17.floordiv_float_partial
